@@ -1679,6 +1679,9 @@ class FlowProposal(RejectionProposal):
                 if os.path.exists(old_weights_file):
                     try:
                         self.flow.reload_weights(old_weights_file)
+                        # Keep recording the current weights file, the next
+                        # save moves it to the `.old` file before writing.
+                        self.flow.weights_file = weights_file
                     except Exception as e_old:
                         logger.warning(
                             "Could not reload weights from "
